@@ -5,7 +5,7 @@
        node.Directives and ObligatoryPrintDirectiveNames.  [dirs_after_print]
        says what the PrintNode's own list is after one execution: on the pinned
        tree the obligatory directives were appended to the node itself; the
-       repaired code (notes/pending/C08-directive-list-local.diff) builds the
+       repaired code (/repo 25f4246, notes/applied/C08-directive-list-local.diff) builds the
        list locally.
      - the caller's data and injected-data maps (by identity): a [set] that
        lands on a frame whose map is the caller's is recorded by Interp in
